@@ -9,6 +9,7 @@ import CallbagModel.Ops.Flatten
 import CallbagModel.Ops.Share
 import CallbagModel.Ops.FromIter
 import CallbagModel.Ops.ForEach
+import CallbagModel.Ops.Compose
 /-!
 # Operator instances known to the driver and to the Rust harness (same names, same closures on both sides)
 
@@ -55,7 +56,40 @@ def iterNext (len : Option Nat) (pos : Nat) : Option (Int × Nat) :=
   | some n => if pos < n then some (101 + pos, pos + 1) else none
   | none => some (101 + pos, pos + 1)
 
+/-- an operator over `Int` data on both sides, usable as a stage of a chain -/
+structure IntStage where
+  St : Type
+  Loc : Type
+  M : Machine St Loc Int Int
+
+/-- stages of `chain:` instances; fields separated by `,` -/
+def stageOf (name : String) : Option IntStage :=
+  match name.splitOn "," with
+  | ["map", "add", k] => k.toInt?.map fun k => ⟨_, _, Relay.machine (Relay.map (· + k))⟩
+  | ["map", "mul", k] => k.toInt?.map fun k => ⟨_, _, Relay.machine (Relay.map (· * k))⟩
+  | ["filter", "mod", m, r] => match m.toInt?, r.toInt? with
+    | some m, some r => some ⟨_, _, Relay.machine (Relay.filter fun x => x % m == r)⟩
+    | _, _ => none
+  | ["scan", "lin", b, s] => match b.toInt?, s.toInt? with
+    | some b, some s => some ⟨_, _, Relay.machine (Relay.scan (scanLin b) s)⟩
+    | _, _ => none
+  | ["skip", n] => n.toNat?.map fun n => ⟨_, _, Relay.machine (Relay.skip n)⟩
+  | ["take", n] => n.toNat?.map fun n => ⟨_, _, Take.machine Int n⟩
+  | ["merge", n] => n.toNat?.map fun n => ⟨_, _, Merge.machine Int n true⟩      -- only as the first (upstream-most) stage
+  | ["concat", n] => n.toNat?.map fun n => ⟨_, _, Concat.machine Int n⟩         -- only as the first stage
+  | ["flatten"] => some ⟨_, _, Flatten.machine Int⟩                             -- only as the first stage
+  | _ => none
+
+/-- `pipe!(puppets…, stage₁, stage₂, …)`: left fold of `compose` -/
+def chainOf : List String → Option IntStage
+  | [] => none
+  | s :: rest => (stageOf s).bind fun first =>
+      rest.foldl (fun acc nm => acc.bind fun a => (stageOf nm).map fun b => ⟨_, _, compose a.M b.M⟩) (some first)
+
 def instOf (name : String) : Option Inst :=
+  if name.startsWith "chain:" then
+    (chainOf ((name.drop 6).toString.splitOn "/")).map fun c => mkInt c.M
+  else
   match name.splitOn ":" with
   | ["map", "add", k] => k.toInt?.map fun k => mkInt (Relay.machine (Relay.map (· + k))) 1 (relaySpec (Relay.map (· + k)))
   | ["map", "mul", k] => k.toInt?.map fun k => mkInt (Relay.machine (Relay.map (· * k))) 1 (relaySpec (Relay.map (· * k)))
